@@ -24,6 +24,8 @@ import XotModel.Lemmas.FinvPrefix
 import XotModel.Lemmas.FinvIdIndex
 import XotModel.Lemmas.Fcreation
 import XotModel.Lemmas.FinvTrav
+import XotModel.Lemmas.ArenaExamples
+import XotModel.Lemmas.ArenaSim
 
 namespace XotModel.Props
 open XotModel
@@ -776,6 +778,231 @@ example :
       (Forest.COp.run f (.appendNew 1 (.text ['c']))).1.allHandles = [0, 1, 2, 3, 4, 5] ∧
       (Forest.COp.run f (.namespaceSetNamespace 1 3)).2 = .err .invalidOperation := by
   decide
+
+/-! =====================================================================================
+  ### The arena under the forest: indextree 4.7.2, pointer level (`Model/Arena*.lean`)
+
+  `Arena.Rep a g`: the arena `a` (slots with five pointers, stamp, data / free-list link; the two
+  free-list heads) stores the list-level content `g : Arena.Shape` (`par`, `kids`, `free`, keyed by
+  slot index); `Arena.Wf a := ∃ g, Rep a g` is the pointer invariant.  `Arena.Call a a'`: one call
+  (`new_node`, `detach`, `checked_append`, `checked_prepend`, `checked_insert_after`,
+  `checked_insert_before`, `remove`, `remove_subtree`) with live arguments — the sibling insertions
+  next to a node that has a parent and is not below the inserted node, `remove` of a node with a
+  parent or without children: exactly the calls the forest model does not send to its `corrupt`
+  sink (except `remove` of a parentless node with exactly one child, which is fine but not proved).
+  `Arena.Abs a g w rs f`: the state `f` of the forest model (`Model/Forest.lean`: `HTree`s with
+  creation-order handles) is the arena read through `g`, the handle numbering and values `w`
+  (injective on live slots, below `f.next`) and the parentless live slots `rs` in the forest's root
+  order.  (`traverse` / `descendants`: `Props/C07`; not covered anywhere: `reverse_traverse`.)
+  ===================================================================================== -/
+
+/-- Every arena reached from the empty one by such calls satisfies the pointer invariant. -/
+theorem C04_arena_wf_reachable (a : Arena) (h : Arena.Steps {} a) : Arena.Wf a :=
+  (h.wf Arena.Wf.empty).1
+
+/-- One call preserves the invariant; no stamp's magnitude decreases. -/
+theorem C04_arena_wf_step (a a' : Arena) (w : Arena.Wf a) (c : Arena.Call a a') :
+    Arena.Wf a' ∧ Arena.StampMono a a' := by
+  obtain ⟨g, r⟩ := w
+  exact c.rep r
+
+/-- `new_node` on a well-formed arena cannot panic; the id it hands out is the current id of a live,
+    parentless, childless slot that was not live before; no other slot changes; the free list loses
+    its head (FIFO reuse: `free_node` appends at the end, see `Arena.FreeNodeOk`). -/
+theorem C04_arena_new_node (a : Arena) (g : Arena.Shape) (r : Arena.Rep a g) (v : Nat) :
+    ∃ a' id g', Arena.newNode a v = .done a' id ∧ Arena.Rep a' g' ∧ Arena.LiveId a' id ∧
+      ¬ Arena.Live a id.index0 ∧ g'.par = g.par ∧ g'.kids = g.kids ∧ g'.par id.index0 = none ∧
+      g'.kids id.index0 = [] ∧ g'.free = g.free.tail ∧ (∀ j, j ≠ id.index0 → a'.slot j = a.slot j) := by
+  obtain ⟨a', id, g', h, ok⟩ := r.newNode v
+  exact ⟨a', id, g', h, ok.rep, ok.liveId, ok.fresh, ok.par, ok.kids, ok.parNone, ok.kidsNil, ok.free, ok.others⟩
+
+/-- `NodeId::is_removed` of a live id is `false`. -/
+theorem C04_arena_is_removed_live (a : Arena) (x : Arena.NodeId) (hx : Arena.LiveId a x) :
+    Arena.isRemoved a x = .done a false := hx.isRemoved
+
+/-- Removed is for ever: once `remove` has freed a live id whose stamp is below 32767 (the slot has
+    been reused fewer than 32767 times), `is_removed` answers `true` after every further history,
+    however often the slot is reused; in particular the id is never a live id again. -/
+theorem C04_arena_is_removed_forever (a a1 a2 : Arena) (x : Arena.NodeId) (w : Arena.Wf a)
+    (hx : Arena.LiveId a x) (hcond : Arena.HasParent a x ∨ Arena.Childless a x) (hlt : x.stamp < 32767)
+    (hrm : Arena.remove a x = .done a1 ()) (hist : Arena.Steps a1 a2) :
+    Arena.isRemoved a2 x = .done a2 true ∧ ¬ Arena.LiveId a2 x := by
+  obtain ⟨g, r⟩ := w
+  have hg := r.remove_gone x hx hcond hlt hrm
+  have w1 : Arena.Wf a1 := ((Arena.Call.remove x a1 hx hcond hrm).rep r).1
+  have hg2 := hg.mono (hist.wf w1).2
+  exact ⟨hg2.isRemoved, hg2.not_liveId⟩
+
+/-- The same for `remove_subtree` (what `Xot::remove` calls): every id of the removed subtree. -/
+theorem C04_arena_is_removed_forever_subtree (a a1 a2 : Arena) (g : Arena.Shape) (r : Arena.Rep a g)
+    (x : Arena.NodeId) (hx : Arena.LiveId a x) (hrm : Arena.removeSubtree a x = .done a1 ()) (u : Nat)
+    (hu : Arena.Reach g.par u x.index0) (hlt : (a.idAt u).stamp < 32767) (hist : Arena.Steps a1 a2) :
+    Arena.isRemoved a2 (a.idAt u) = .done a2 true ∧ ¬ Arena.LiveId a2 (a.idAt u) := by
+  have hg := r.removeSubtree_gone x hx hrm u hu hlt
+  have w1 : Arena.Wf a1 := ((Arena.Call.removeSubtree x a1 hx hrm).rep r).1
+  have hg2 := hg.mono (hist.wf w1).2
+  exact ⟨hg2.isRemoved, hg2.not_liveId⟩
+
+/-- The bound is sharp: a slot whose stamp has reached 32767 hands out the same id again. -/
+theorem C04_arena_stamp_saturates :
+    let a : Arena := { nodes := [{ stamp := 32767, data := .data 0 }] }
+    ∃ a1 a2, Arena.remove a ⟨1, 32767⟩ = .done a1 () ∧ Arena.isRemoved a1 ⟨1, 32767⟩ = .done a1 true ∧
+      Arena.newNode a1 7 = .done a2 ⟨1, 32767⟩ ∧ Arena.isRemoved a2 ⟨1, 32767⟩ = .done a2 false :=
+  ⟨_, _, rfl, rfl, rfl, rfl⟩
+
+/-- Refinement to list semantics, `detach`: the node leaves its parent's child list. -/
+theorem C04_arena_refines_detach (a : Arena) (g : Arena.Shape) (r : Arena.Rep a g) (x : Arena.NodeId)
+    (hx : Arena.LiveId a x) :
+    ∃ a', Arena.detach a x = .done a' () ∧ Arena.Rep a' (g.detach x.index0) ∧ Arena.MetaEq a a' :=
+  r.detach x hx
+
+/-- Refinement, `checked_append` (`p`, `i` live slots): refused exactly for `p = i` (`AppendSelf`)
+    and for `i` an ancestor of `p` (`AppendAncestor`); otherwise `i` is detached and becomes the last
+    child of `p`. -/
+theorem C04_arena_refines_append (a : Arena) (g : Arena.Shape) (r : Arena.Rep a g) (p i : Nat)
+    (hp : Arena.Live a p) (hi : Arena.Live a i) :
+    (p = i → Arena.checkedAppend a (a.idAt p) (a.idAt i) = .done a (.error .appendSelf)) ∧
+    (p ≠ i → Arena.Reach g.par p i →
+      Arena.checkedAppend a (a.idAt p) (a.idAt i) = .done a (.error .appendAncestor)) ∧
+    (p ≠ i → ¬ Arena.Reach g.par p i → ∃ a', Arena.checkedAppend a (a.idAt p) (a.idAt i) = .done a' (.ok ()) ∧
+      Arena.Rep a' (g.append p i) ∧ Arena.MetaEq a a') :=
+  ⟨fun e => by rw [e]; exact Arena.checkedAppend_self a _,
+   fun hne h => r.checkedAppend_ancestor p i hp hi hne h,
+   fun hne h => r.checkedAppend_ok p i hp hi hne h⟩
+
+/-- Refinement, `checked_prepend`: as `checked_append`, except that prepending the node that already
+    is the first child panics (`insert_with_neighbors` reports `SiblingsLoop` to an `expect`)
+    before anything is written. -/
+theorem C04_arena_refines_prepend (a : Arena) (g : Arena.Shape) (r : Arena.Rep a g) (p i : Nat)
+    (hp : Arena.Live a p) (hi : Arena.Live a i) (hne : p ≠ i) :
+    (Arena.Reach g.par p i → Arena.checkedPrepend a (a.idAt p) (a.idAt i) = .done a (.error .prependAncestor)) ∧
+    (¬ Arena.Reach g.par p i → (g.kids p).head? = some i →
+      Arena.checkedPrepend a (a.idAt p) (a.idAt i) = .panic a) ∧
+    (¬ Arena.Reach g.par p i → (g.kids p).head? ≠ some i →
+      ∃ a', Arena.checkedPrepend a (a.idAt p) (a.idAt i) = .done a' (.ok ()) ∧
+        Arena.Rep a' (g.prepend p i) ∧ Arena.MetaEq a a') :=
+  ⟨fun h => r.checkedPrepend_ancestor p i hp hi hne h,
+   fun h hf => r.checkedPrepend_first_panics p i hp hi hne h hf,
+   fun h hf => r.checkedPrepend_ok p i hp hi hne h hf⟩
+
+/-- Refinement, `checked_insert_after` / `checked_insert_before` next to a node `ref` with parent `p`
+    that is not below the inserted node `i`: `i` is detached and lands right after / before `ref`. -/
+theorem C04_arena_refines_insert_after (a : Arena) (g : Arena.Shape) (r : Arena.Rep a g) (ref i p : Nat)
+    (hr : Arena.Live a ref) (hi : Arena.Live a i) (hne : ref ≠ i) (hpar : g.par ref = some p)
+    (hanc : ¬ Arena.Reach g.par ref i) :
+    ∃ a' A B, Arena.checkedInsertAfter a (a.idAt ref) (a.idAt i) = .done a' (.ok ()) ∧
+      (g.detach i).kids p = A ++ ref :: B ∧ Arena.Rep a' ((g.detach i).link p (A ++ [ref]) i B) ∧
+      Arena.MetaEq a a' :=
+  r.checkedInsertAfter_ok ref i p hr hi hne hpar hanc
+
+theorem C04_arena_refines_insert_before (a : Arena) (g : Arena.Shape) (r : Arena.Rep a g) (ref i p : Nat)
+    (hr : Arena.Live a ref) (hi : Arena.Live a i) (hne : ref ≠ i) (hpar : g.par ref = some p)
+    (hanc : ¬ Arena.Reach g.par ref i) :
+    ∃ a' A B, Arena.checkedInsertBefore a (a.idAt ref) (a.idAt i) = .done a' (.ok ()) ∧
+      (g.detach i).kids p = A ++ ref :: B ∧ Arena.Rep a' ((g.detach i).link p A i (ref :: B)) ∧
+      Arena.MetaEq a a' :=
+  r.checkedInsertBefore_ok ref i p hr hi hne hpar hanc
+
+/-- Refinement, `remove`: a childless node is detached and freed; a node with parent `p`
+    (`kids p = L ++ i :: R`) and children is replaced by its children in `p`'s child list
+    (`kids' p = L ++ kids i ++ R`, each child's parent becomes `p`) and freed; the slot joins the end
+    of the free list. -/
+theorem C04_arena_refines_remove (a : Arena) (g : Arena.Shape) (r : Arena.Rep a g) (i : Nat) (hi : Arena.Live a i) :
+    (g.kids i = [] → ∃ a', Arena.remove a (a.idAt i) = .done a' () ∧ Arena.Rep a' (g.removeLeaf i)) ∧
+    (∀ p L R, g.par i = some p → g.kids p = L ++ i :: R → g.kids i ≠ [] →
+      ∃ a', Arena.remove a (a.idAt i) = .done a' () ∧ Arena.Rep a' (g.removeInner i p L R)) := by
+  refine ⟨fun hk => ?_, fun p L R hp hkp hk => ?_⟩
+  · obtain ⟨_, a', _, _, _, h, _, r'⟩ := r.remove_leaf i hi hk
+    exact ⟨a', h, r'⟩
+  · cases hh : (g.kids i).head? with
+    | none => exact absurd (List.head?_eq_none_iff.mp hh) hk
+    | some c1 =>
+      cases hl : (g.kids i).getLast? with
+      | none => exact absurd (List.getLast?_eq_none_iff.mp hl) hk
+      | some ck =>
+        obtain ⟨_, a', _, _, h, _, r'⟩ := r.remove_inner i p L R c1 ck hi hp hkp hh hl
+        exact ⟨a', h, r'⟩
+
+/-- Refinement, `remove_subtree`: never panics, both loops end; the node is detached and exactly its
+    descendants-or-self `l` are freed, in the order `l` (document order), which is the order in which
+    `new_node` will reuse the slots. -/
+theorem C04_arena_refines_remove_subtree (a : Arena) (g : Arena.Shape) (r : Arena.Rep a g) (i : Nat)
+    (hi : Arena.Live a i) :
+    ∃ a' l, Arena.removeSubtree a (a.idAt i) = .done a' () ∧ Arena.Rep a' ((g.detach i).prune l) ∧ l.Nodup ∧
+      (∀ u, u ∈ l ↔ Arena.Reach g.par u i) ∧ Arena.StampMono a a' := by
+  obtain ⟨a', l, h, ok⟩ := r.removeSubtree i hi
+  exact ⟨a', l, h, ok.rep, ok.nodup, fun u => (ok.mem u).trans (r.reach_detach_iff i u), ok.mono⟩
+
+/-- Refinement to the forest model: the primitives of `Model/Forest.lean` ARE indextree's
+    operations, read through the abstraction.  Every call of `Arena.Call` from an arena that
+    abstracts to the forest `f` leads to an arena that abstracts to the result of the corresponding
+    forest primitive (`newNode`, `detachRaw`, `checkedAppend`, `checkedPrepend`,
+    `checkedInsertAfter`, `checkedInsertBefore`, `spliceOut`, `dropSubtree`), with the handle
+    numbering extended at `new_node` by the fresh handle `f.next` — also when the slot is a reused
+    one. -/
+theorem C04_arena_refines_forest_step (a a' : Arena) (g : Arena.Shape) (w : Arena.View) (rs : List Nat) (f : Forest)
+    (h : Arena.Abs a g w rs f) (c : Arena.Call a a') :
+    ∃ g' w' rs' f', Arena.Abs a' g' w' rs' f' ∧ Arena.FCall f f' :=
+  h.call c
+
+/-- Hence every history of arena calls from the empty arena is simulated by a history of forest
+    primitives from the empty forest: the forest model's contract for indextree is a theorem about
+    the pointer-level model. -/
+theorem C04_arena_refines_forest (a : Arena) (s : Arena.Steps {} a) :
+    ∃ g w rs f, Arena.Abs a g w rs f ∧ Arena.FSteps {} f :=
+  Arena.Abs.empty.steps s
+
+/-- The single calls, with the forest model's answer next to indextree's: `detach` = `detachRaw`;
+    an accepted `checked_append` = `checkedAppend` answering `true`; a refused one (self, ancestor) is
+    refused by the forest model too, which then stays as it is. -/
+theorem C04_arena_refines_forest_calls (a : Arena) (g : Arena.Shape) (w : Arena.View) (rs : List Nat) (f : Forest)
+    (h : Arena.Abs a g w rs f) :
+    (∀ x, Arena.LiveId a x → ∃ a', Arena.detach a x = .done a' () ∧
+      Arena.Abs a' (g.detach x.index0) w (rs.filter (· ≠ x.index0) ++ [x.index0]) (f.detachRaw (w.rho x.index0))) ∧
+    (∀ p c, Arena.Live a p → Arena.Live a c → p ≠ c → ¬ Arena.Reach g.par p c →
+      ∃ a', Arena.checkedAppend a (a.idAt p) (a.idAt c) = .done a' (.ok ()) ∧
+        (f.checkedAppend (w.rho p) (w.rho c)).2 = true ∧
+        Arena.Abs a' (g.append p c) w (rs.filter (· ≠ c)) (f.checkedAppend (w.rho p) (w.rho c)).1) ∧
+    (∀ p c, Arena.Live a p → Arena.Live a c → (p = c ∨ Arena.Reach g.par p c) →
+      f.checkedAppend (w.rho p) (w.rho c) = (f, false)) ∧
+    (∀ i, Arena.Live a i → ∃ a' l, Arena.removeSubtree a (a.idAt i) = .done a' () ∧
+      (∀ u, u ∈ l ↔ Arena.Reach g.par u i) ∧
+      Arena.Abs a' ((g.detach i).prune l) w (rs.filter (· ≠ i)) (f.dropSubtree (w.rho i))) :=
+  ⟨fun x hx => h.detach x hx, fun p c hp hc hne hanc => h.checkedAppend_ok p c hp hc hne hanc,
+   fun p c hp hc hr => (h.checkedAppend_refused p c hp hc hr).1, fun i hi => h.removeSubtree i hi⟩
+
+/-- Non-vacuity: closed arenas reached by histories (three nodes `1:0 [2:0, 3:0]`; a grandchild;
+    after `remove(2:0)` and a `new_node` that reuses the slot with stamp 1), their invariant, what the
+    stale id `2:0` answers, and what indextree does outside the list semantics: `remove` of a
+    parentless node with two children leaves two parentless nodes that are still each other's
+    siblings; `checked_insert_after` of the parent of the reference node panics after the parent has
+    already been detached; `checked_insert_after` of a grandparent builds a parent cycle (the
+    `ancestors` iterator then never ends: here cut off by the limit). -/
+example : Arena.Wf Arena.sampleA ∧ Arena.Wf Arena.sampleB ∧ Arena.Wf Arena.sampleC :=
+  ⟨C04_arena_wf_reachable _ Arena.sampleA_steps, C04_arena_wf_reachable _ Arena.sampleB_steps,
+   C04_arena_wf_reachable _ Arena.sampleC_steps⟩
+
+example : ∃ g w rs f, Arena.Abs Arena.sampleC g w rs f ∧ Arena.FSteps {} f :=
+  C04_arena_refines_forest _ Arena.sampleC_steps
+
+example : Arena.sampleA.wf = true ∧ Arena.sampleC.wf = true ∧
+    Arena.isRemoved Arena.sampleC ⟨2, 0⟩ = .done Arena.sampleC true ∧
+    Arena.isRemoved Arena.sampleC ⟨2, 1⟩ = .done Arena.sampleC false ∧
+    Arena.children Arena.sampleC ⟨1, 0⟩ 9 = .done Arena.sampleC [⟨4, 0⟩, ⟨3, 0⟩] ∧
+    Arena.sampleC.firstFree = none ∧
+    (match Arena.removeSubtree Arena.sampleB ⟨2, 0⟩ with
+     | .done a' () => a'.wf && a'.firstFree == some 1 && a'.lastFree == some 3 &&
+         Arena.isRemoved a' ⟨4, 0⟩ == .done a' true && Arena.children a' ⟨1, 0⟩ 9 == .done a' [⟨3, 0⟩]
+     | _ => false) = true := by decide
+
+example : (Arena.sampleA.after (Arena.remove · ⟨1, 0⟩)).wf = false ∧
+    (Arena.sampleA.after (Arena.remove · ⟨1, 0⟩)).get ⟨2, 0⟩ =
+      some { next := some ⟨3, 0⟩, data := .data 20 } ∧
+    (match Arena.checkedInsertAfter Arena.sampleA ⟨2, 0⟩ ⟨1, 0⟩ with | .panic _ => true | _ => false) = true ∧
+    (match Arena.checkedInsertAfter Arena.sampleB ⟨4, 0⟩ ⟨1, 0⟩ with
+     | .done a' (.ok ()) => !a'.wf && (Arena.ancestors a' ⟨4, 0⟩ 7).arena == a' &&
+         (match Arena.ancestors a' ⟨4, 0⟩ 7 with | .done _ l => l.length == 7 | _ => false)
+     | _ => false) = true := by decide
 
 end XotModel.Props
 
